@@ -4,6 +4,13 @@ checks and the not_applicable list are always consistent)."""
 import json
 import os
 import subprocess
+import sys
+
+if '--force' not in sys.argv:
+    # MANIFEST.json has been edited directly since this table was written (level texts, techniques); it is the source of truth.
+    # Running this script would put the older texts back.
+    print('gen/manifest.py: MANIFEST.json is maintained directly now; pass --force to regenerate it from the (older) table below')
+    sys.exit(0)
 
 HERE = os.path.dirname(os.path.dirname(os.path.abspath(__file__)))
 
